@@ -35,7 +35,7 @@ METHODS = ["EQUALS", "STARTS_WITH", "ENDS_WITH", "CONTAINS", "LESS_THAN", "GREAT
 KEYWORDS = ["HAS_CHILD", "NAME", "MAX", "MIN", "PARENT", "UNIQUE", "DISTINCT"]
 COLLOPS = ["NONE", "ADDITION", "SUBTRACTION", "INTERSECTION"]
 ATTRS = [".", "a", "a.b", "a b", "/"]
-TERMS = ["", "a", "1", "a b", "'a", "x/y", "\\", "a.b", '"', "'a'", "/|#@,;:_-", " x", "^a$", "a]", "\\d+/"]
+TERMS = ["", "a", "1", "a b", "'a", "x/y", "\\", "a.b", '"', "'a'", "/|#@,;:_-", " x", "^a$", "a]", "\\d+/", "x ", " ", " a b "]
 PARAMS = ["", "a", "a, b", "'x'", "a.b", "a)", "(", "\\"]
 EXPRS = ["a", "a.b", "/a/b", "(a)+(b)", "a[1]", "a b", "&a", "a\\.b", ")", ""]
 INTS = [0, 1, -1, 12, -30, 100]
